@@ -100,6 +100,7 @@ def templates(tier):
             out.append(dict(base, template="timed_window", timers=True))
             out.append(dict(base, template="partition-timeout", n=2, timers=True))
             out.append(dict(base, template="direct"))
+            out.append(dict(base, template="flatten-direct", out_of_order=True, items=2))
             if awaiting:
                 out.append(dict(base, template="buffer+delay", n=1, timers=True))
                 out.append(dict(base, template="delay+buffer", n=1, timers=True))
